@@ -170,6 +170,7 @@ def core_check(cfg):
             log(f"[{prop}] random histories with extended monitoring on: {len(xfiles)} x {t['random_len']} requests, {nx} records, {time.time()-t3b:.0f}s")
 
         # 3c. the same property observed through sockets (forwarding tasks of the protocol layer, real schedules)
+        nlive_sc, nlive = 0, 0
         if cfg.get("live_gen"):
             t3c = time.time()
             lscs = cfg["live_gen"](random.Random(seed * 31 + 7), tier)
@@ -188,7 +189,7 @@ def core_check(cfg):
                 r = sess.validate(d, tr, known, 900)
                 r["n"], r["scs"] = n, part
                 return r
-            nlive = 0
+            nlive_sc = len(lscs)
             for i, r in enumerate(vlib.parallel(run_live, [(i, lscs[i::8]) for i in range(8) if lscs[i::8]])):
                 nlive += r["n"]
                 if r["status"] == "known":
@@ -247,6 +248,7 @@ def core_check(cfg):
             "mc_config": t["mc_cfg"], "abstract_states": nstates, "edges_replayed": nedges,
             "ops_covered": ops, "trace_records_validated": nrec + nrnd,
             "random_histories": len(rfiles), "random_history_length": t["random_len"], "further_configurations": extras,
+            "walks": len(walks), "socket_scenarios": nlive_sc, "socket_records_validated": nlive,
             "build_s": round(build_s, 1), "mc_s": round(mc_s, 1),
             "explanation": "TLC exhaustive on the intended design within the MC config bounds; every edge of the "
                            "bounded as-is graph replayed into the real core and the recorded trace validated by TLC; "
